@@ -536,36 +536,7 @@ func checkCellWriters(c *Ctx, r *Report, rule string) {
 			r.check(al[shortFn(root)], rule, k, posOf(c, ins), "listed writer", "the accounting cell "+field+" is written outside its listed writers: the transfer equations checked by R1/R2 no longer describe every change of the cell")
 		})
 	}
-	// the subscriber context - the only place the held reservation is recorded - is
-	// never removed from the pool or replaced by a fresh one while the process serves
-	// requests: a context dropped with a non-zero reservation loses that money (the
-	// account server has already subtracted it)
-	reqReach, _ := c.reach(requestEntries(c))
-	for _, f := range c.ModFuncs {
-		eachInstr(f, func(_ *ssa.BasicBlock, _ int, ins ssa.Instruction) {
-			call, ok := ins.(ssa.CallInstruction)
-			if !ok {
-				return
-			}
-			com := call.Common()
-			obj := calleeObj(com)
-			if obj == nil || obj.Pkg() == nil || obj.Pkg().Path() != "sync" || len(com.Args) == 0 {
-				return
-			}
-			fa, ok := com.Args[0].(*ssa.FieldAddr)
-			if !ok || !typeIs(fa.X.Type(), ctxPath, "CHFContext") || fieldName(fa) != "UePool" {
-				return
-			}
-			switch obj.Name() {
-			case "Delete", "LoadAndDelete", "CompareAndDelete", "Clear", "Swap", "CompareAndSwap", "Store":
-			default:
-				return
-			}
-			root := rootOf(f)
-			k := fmt.Sprintf("subscriber pool %s in %s", obj.Name(), shortFn(root))
-			r.check(!reqReach[f], rule, k, posOf(c, ins), "not reachable from a request entry point", "the subscriber context is removed from (or replaced in) the pool on the request path by "+obj.Name()+": the reservation it holds ("+"ChfUe.ReservedQuota) is forgotten although the account server has already subtracted it - that credit is neither used nor refunded")
-		})
-	}
+	checkPoolLifetime(c, r, rule, "the reservation it holds (ChfUe.ReservedQuota) is forgotten although the account server has already subtracted it - that credit is neither used nor refunded")
 	// the balance document is written only by the CCR handler
 	for _, f := range c.ModFuncs {
 		eachInstr(f, func(_ *ssa.BasicBlock, _ int, ins ssa.Instruction) {
@@ -588,6 +559,43 @@ func checkCellWriters(c *Ctx, r *Report, rule string) {
 	}
 }
 
+// checkPoolLifetime: the subscriber context - the only place the held
+// reservation and the open session references are recorded - is never removed
+// from the pool or replaced by a fresh one while the process serves requests.
+func checkPoolLifetime(c *Ctx, r *Report, rule, consequence string) {
+	reqReach, _ := c.reach(requestEntries(c))
+	n := 0
+	for _, f := range c.ModFuncs {
+		eachInstr(f, func(_ *ssa.BasicBlock, _ int, ins ssa.Instruction) {
+			call, ok := ins.(ssa.CallInstruction)
+			if !ok {
+				return
+			}
+			com := call.Common()
+			obj := calleeObj(com)
+			if obj == nil || obj.Pkg() == nil || obj.Pkg().Path() != "sync" || len(com.Args) == 0 {
+				return
+			}
+			fa, ok := com.Args[0].(*ssa.FieldAddr)
+			if !ok || !typeIs(fa.X.Type(), ctxPath, "CHFContext") || fieldName(fa) != "UePool" {
+				return
+			}
+			switch obj.Name() {
+			case "Delete", "LoadAndDelete", "CompareAndDelete", "Clear", "Swap", "CompareAndSwap", "Store":
+			default:
+				return
+			}
+			root := rootOf(f)
+			n++
+			k := fmt.Sprintf("subscriber pool %s in %s", obj.Name(), shortFn(root))
+			r.check(!reqReach[f], rule, k, posOf(c, ins), "not reachable from a request entry point", "the subscriber context is removed from (or replaced in) the pool on the request path by "+obj.Name()+": "+consequence)
+		})
+	}
+	if n == 0 {
+		r.proven(rule, "subscriber pool|no removal", "", "no function of the module removes or replaces an entry of CHFContext.UePool")
+	}
+}
+
 // ---------------------------------------------------------------------------
 
 func checkC06(c *Ctx, r *Report) {
@@ -597,6 +605,7 @@ func checkC06(c *Ctx, r *Report) {
 	r.rule("C06.R2", "granted volume = min(AllowedUnits, requested) in reserve mode, 0 in debit mode", 2)
 	r.rule("C06.R3", "final-unit indication set exactly when the account server signalled TERMINATE", 1)
 	r.rule("C06.R4", "account server grants min(request, balance) (shared with C07.R1)", 4)
+	r.rule("C06.R6", "the reservation, unit-cost and mode cells are changed only by the accounting transitions the other rules describe, and the context that holds them is not dropped on the request path (shared with C01.R5)", 4)
 	r.rule("C06.R5", "the rating function converts reserved money into units by floor division: AllowedUnits = quota div unit cost, Price = units x unit cost (shared with C08.R2)", 2)
 
 	m := buildChfModel(c)
@@ -781,4 +790,5 @@ func checkC06(c *Ctx, r *Report) {
 
 	// ---- R5: the CHF trusts the rating function to turn money into units
 	rfRules(c, r, "", "C06.R5", "", "", "C06.R5")
+	checkCellWriters(c, r, "C06.R6")
 }
